@@ -1,7 +1,7 @@
 (** C12 -- reducing named dimensions equals the axis reduction, in memory and on file. *)
 From Coq Require Import List Arith Lia Bool ZArith.
 Require Import V.Base.ListAux V.Base.Radix V.Base.Matrix V.Base.NdArray V.Usid.SortOrder V.Usid.ToND V.Usid.ToNDProof V.Usid.FromND
-               V.Usid.Grid V.Usid.SelEnum V.Usid.Reduce V.Usid.ReduceProof V.Usid.ReduceGrid V.Usid.ReduceFile V.Usid.ReduceSqueezed.
+               V.Usid.Grid V.Usid.SelEnum V.Usid.Reduce V.Usid.ReduceProof V.Usid.ReduceGrid V.Usid.ReduceFile V.Usid.ReduceSqueezed V.Usid.ReduceVals V.Usid.UnitValues.
 Import ListNotations.
 
 (** The value at a kept index is the reduction of exactly the elements of the fibre over it ... *)
@@ -186,6 +186,33 @@ Example C12_example_all_positions :
   reduce_file main pos spec [2; 3] RSum = Ok (4, 1, [15; 51; 87; 123]%Z, RReused, RWritten [4] [[0]]) /\
   kept 2 (filter (fun dm => Nat.ltb dm 2) [0; 1]) = [] /\ kept 2 (map (fun dm => dm - 2) (filter (fun dm => negb (Nat.ltb dm 2)) [0; 1])) <> [].
 Proof. cbv zeta. repeat split; try (vm_compute; reflexivity). vm_compute. discriminate. Qed.
+
+(** The VALUES matrix of a rebuilt side (write_reduced_anc_dsets keeps the same rows and columns of it as of the index matrix):
+    every entry is the original reference value, of the ORIGINAL dimension, of the index standing at the same place of the new
+    index matrix -- for any matrices whatsoever that are related entry by entry through a value function. *)
+Theorem C12_rebuilt_values_follow_the_rebuilt_indices :
+  forall (inds : list (list nat)) (vals : list (list Z)) (red : list nat) (vf : nat -> nat -> Z),
+  (forall d c, d < length inds -> c < ncols inds -> nth c (nth d vals []) 0%Z = vf d (nth c (nth d inds []) 0)) ->
+  forallb (is_ax red) (seq 0 (length inds)) = false ->
+  let ri := fst (write_reduced inds red) in let keep := snd (write_reduced inds red) in
+  let rv := write_reduced_vals inds vals red in
+  length rv = length keep /\
+  forall i j, i < length keep -> j < length (reduced_cols inds red) ->
+    nth j (nth i rv []) 0%Z = vf (nth i keep 0) (nth j (nth i ri []) 0).
+Proof. exact reduced_vals_pointwise. Qed.
+Print Assumptions C12_rebuilt_values_follow_the_rebuilt_indices.
+
+(** On a regular grid in any storage order with any reference values: what get_unit_values reports for the rebuilt side is, for
+    every kept dimension, exactly its ORIGINAL unit values in index order ("reduced sides rebuilt with the original unit values"). *)
+Theorem C12_rebuilt_side_reports_the_original_unit_values :
+  forall (sz so red : list nat) (f : nat -> nat -> Z),
+  wf_grid sz so -> length sz <= prod (radices sz so) -> 0 < length sz -> Forall (fun d => d < length sz) red -> kept (length sz) red <> [] ->
+  let vals := map (fun d => map (f d) (grid_row sz so d)) (seq 0 (length sz)) in
+  let keep := kept (length sz) red in
+  get_unit_values 0%Z (grid_spec (red_sz sz red) (red_so sz so red)) (write_reduced_vals (grid_spec sz so) vals red) (Some true) (length (red_sz sz red))
+  = Ok (map (fun i => map (f (nth i keep 0)) (seq 0 (nth (nth i keep 0) sz 1))) (seq 0 (length keep))).
+Proof. intros. now apply reduced_unit_values. Qed.
+Print Assumptions C12_rebuilt_side_reports_the_original_unit_values.
 
 (** With fewer than two axes left the call raises rather than writing a dataset that is not a Main dataset. *)
 Theorem C12_raises_when_fewer_than_two_axes_remain :
